@@ -2,8 +2,9 @@
 use crate::core::World;
 
 pub mod base64;
+pub mod decode;
 pub mod queue;
 
 pub fn all() -> Vec<World> {
-    vec![base64::world(), queue::world()]
+    vec![base64::world(), queue::world(), decode::world()]
 }
